@@ -44,6 +44,8 @@ def oracle(ctx, b, forced_carbon=False):
             case["forced_confidence"] = b["force_conf"]
         if b.get("force_carbon"):
             case["forced_carbon"] = b["force_carbon"]
+        if b.get("matrix"):
+            case["matrix"] = b["matrix"]; case["inputs"] = list(b["inputs"])
         if not r["solved"]:
             if r["reaction"] != r["input_reaction"]:
                 ctx.fail("declined-row-altered", case, {})
@@ -135,6 +137,14 @@ def run(ctx):
             ctx.count("inputs", "batches_with_lost_rows(C05)")
             continue
         oracle(ctx, b)
+    import matrix
+    for run in matrix.runs(ctx):
+        ctx.count("matrix", run["config"][:40])
+        # the statement is about the default threshold and about rows that do not pre-populate the tool's own output columns
+        if "threshold 0.5" in run["config"] or "fed in again" in run["config"]:
+            continue
+        if not run["error"] and len(run["rows"]) == len(run["given"]):
+            oracle(ctx, dict(matrix.as_batch(run), matrix=run["config"]))
     ctx.sample({"input": bs[0]["inputs"][0], "row": bs[0]["rows"][0] if bs[0]["rows"] else None})
     ctx.sample({"input": gs[0]["inputs"][0], "row": gs[0]["rows"][0] if gs[0]["rows"] else None})
     pipe.eval_pipeline_cases(ctx, bs + gs, "c03")
